@@ -22,8 +22,6 @@ Definition xml_escape (s : str) : str :=
 Definition str_nonempty (s : str) : bool := match s with [] => false | _ => true end.
 
 (* ---- DFXP ------------------------------------------------------------------ *)
-(* _recreate_style(node.content): only 'italics' and 'color' of the modelled keys produce an attribute;
-   `if 'italics' in content` - membership, the generators only use True values *)
 (* xml.sax.saxutils.quoteattr (the repaired writers quote attribute values with it) *)
 Definition mem_ch (c : Z) (s : str) : bool := existsb (Z.eqb c) s.
 Definition quoteattr (s : str) : str :=
@@ -32,11 +30,15 @@ Definition quoteattr (s : str) : str :=
     if mem_ch 39 d then [34] ++ replace [34] (lit "&quot;") d ++ [34] else [39] ++ d ++ [39]
   else [34] ++ d ++ [34].
 
+(* _recreate_style(node.content): of the modelled keys only 'italics' (truthy value) and 'color' produce an attribute *)
 Definition dfxp_style_attrs (st : style) : str :=
   (if st_i st then lit " tts:fontStyle=""italic""" else []) ++
   (match st_color st with Some c => lit " tts:color=" ++ quoteattr c | None => [] end).
 
-Definition close_span (line : str) : str := rstrip line ++ lit "</span> ".
+(* repaired DFXP / legacy DFXP writers: line + '</span>' ; SAMI writer (and the pinned DFXP writers):
+   line.rstrip() + '</span> ' *)
+Definition close_span (line : str) : str := line ++ lit "</span>".
+Definition close_span_sp (line : str) : str := rstrip line ++ lit "</span> ".
 Definition br_markup : str := lit "<br/>" ++ [10] ++ lit "    ".
 
 (* state = (line, self.open_span) *)
@@ -59,11 +61,11 @@ Definition dfxp_run (extra : str) (open : bool) (ns : list node) : str * bool :=
   fold_left (dfxp_step extra) ns ([], open).
 Definition dfxp_payload (extra : str) (ns : list node) : str := rstrip (fst (dfxp_run extra false ns)).
 
-(* legacy: text nodes get a trailing space *)
+(* legacy (repaired: no blank after a text node any more; the step is DFXPWriter's without positioning) *)
 Definition legacy_step (acc : str * bool) (n : node) : str * bool :=
   let (line, open) := acc in
   match n with
-  | NText s => (line ++ xml_escape s ++ lit " ", open)
+  | NText s => (line ++ xml_escape s, open)
   | NBreak => (rstrip line ++ br_markup, open)
   | NStyle start st => span_step dfxp_style_attrs line open start st
   end.
@@ -86,12 +88,12 @@ Definition sami_step (acc : str * bool) (n : node) : str * bool :=
   | NText s => (line ++ xml_escape s ++ lit " ", open)
   | NBreak => (rstrip line ++ br_markup, open)
   | NStyle true st =>
-      let line1 := if open then close_span line else line in
+      let line1 := if open then close_span_sp line else line in
       match sami_css st with
       | [] => (line1, open)
       | css => (line1 ++ lit "<span style=""" ++ css ++ lit """>", true)
       end
-  | NStyle false _ => if open then (close_span line, false) else (line, open)
+  | NStyle false _ => if open then (close_span_sp line, false) else (line, open)
   end.
 Definition sami_run (open : bool) (ns : list node) : str * bool := fold_left sami_step ns ([], open).
 Definition sami_payload (ns : list node) : str := rstrip (fst (sami_run false ns)).
@@ -139,7 +141,7 @@ Definition vtt_doc (caps : list (str * list node)) : str :=
 
 (* ---- SRT ------------------------------------------------------------------- *)
 Definition srt_piece (n : node) : str :=
-  match n with NText s => s ++ lit " " | NBreak => [10] | NStyle _ _ => [] end.
+  match n with NText s => s | NBreak => [10] | NStyle _ _ => [] end.
 Definition srt_raw (ns : list node) : str := strip (concat (map srt_piece ns)).
 Definition nonblank (l : str) : bool := str_nonempty (strip l).
 (* repaired: '\n'.join(line for line in new_content.split('\n') if line.strip()) *)
@@ -154,12 +156,40 @@ Fixpoint srt_blocks_from (content : list node -> str) (k : Z) (caps : list (str 
   end.
 (* srt[:-1] *)
 Definition drop_last (s : str) : str := firstn (length s - 1) s.
-Definition srt_doc (caps : list (str * list node)) : str := drop_last (srt_blocks_from srt_content 1 caps).
+(* _recreate_lang first merges consecutive captions with the same (start, end) - here: the same timing line -
+   into one caption: nodes + [BREAK] + nodes *)
+Fixpoint srt_merge_aux (acc : list (str * list node)) (caps : list (str * list node)) : list (str * list node) :=
+  match caps with
+  | [] => rev acc
+  | (tl, ns) :: t =>
+      match acc with
+      | (tl0, ns0) :: acc' => if str_eqb tl tl0 then srt_merge_aux ((tl0, ns0 ++ [NBreak] ++ ns) :: acc') t
+                              else srt_merge_aux ((tl, ns) :: acc) t
+      | [] => srt_merge_aux [(tl, ns)] t
+      end
+  end.
+Definition srt_merge (caps : list (str * list node)) : list (str * list node) := srt_merge_aux [] caps.
+
+Definition srt_doc_merged (caps : list (str * list node)) : str := drop_last (srt_blocks_from srt_content 1 caps).
+Definition srt_doc (caps : list (str * list node)) : str := srt_doc_merged (srt_merge caps).
 Definition srt_doc_prefix (caps : list (str * list node)) : str := drop_last (srt_blocks_from srt_content_prefix 1 caps).
 
 (* ---- MicroDVD -------------------------------------------------------------- *)
+(* a line end inside a text node (CR LF, CR, LF - also at its edges) is written as a line break '|'
+   (re.sub('\r\n|\r|\n', '|', content)); every other character, U+2028 included, is written as it is *)
+Fixpoint mdvd_nl (s : str) : str :=
+  match s with
+  | [] => []
+  | c :: t =>
+      if c =? 13 then 124 :: match t with
+                             | d :: t' => if d =? 10 then mdvd_nl t' else mdvd_nl t
+                             | [] => []
+                             end
+      else if c =? 10 then 124 :: mdvd_nl t
+      else c :: mdvd_nl t
+  end.
 Definition mdvd_piece (n : node) : str :=
-  match n with NText s => s | NBreak => lit "|" | NStyle _ _ => [] end.
+  match n with NText s => mdvd_nl s | NBreak => lit "|" | NStyle _ _ => [] end.
 
 (* while p in s: s = s.replace(p, r) *)
 Fixpoint while_replace (fuel : nat) (p r s : str) : str :=
